@@ -634,8 +634,29 @@ class History:
                     return True
                 if r.random() < 0.1 and not self.twin:
                     self.probe()
+                cfgb = self.view('config') or [self.conf, self.ws, self.claim]
+                if self.round == cfgb[1] and r.random() < 0.35:
+                    # still in the very round the selection period started: postponing it must be refused
+                    rec2 = self.call(OWNER, ['setWsStart', self.round + r.choice([1, 3, 10])])
+                    if rec2['status'] == 'ok' and self.users:
+                        for a in r.sample(self.users, min(len(self.users), 2)):
+                            self.call(OWNER, ['blacklist', 1, a])
+                        self.confirm(r.choice(self.users), 'ok')
                 if r.random() < 0.15:
-                    self.timeline_probe()
+                    rec2 = self.timeline_probe()
+                    if rec2['status'] == 'ok' and self.users:
+                        # a start round was moved while the step is in progress: whatever the earlier
+                        # stage allows again is tried
+                        self.blacklist_ops()
+                        self.confirm(r.choice(self.users), 'ok')
+                if r.random() < 0.06 and self.users:
+                    # settlement attempts in the middle of a step, also once the claim round is reached
+                    cfg = self.view('config') or [self.conf, self.ws, self.claim]
+                    if r.random() < 0.6:
+                        self.round = max(self.round, cfg[2]) + r.choice([0, 0, 1, 7])
+                    self.call(r.choice(self.users), 'claim')
+                    if r.random() < 0.5:
+                        self.call(OWNER, 'claimPayment')
             else:
                 stuck += 1
                 if stuck > 3:
